@@ -18,9 +18,9 @@ harness/C04/tv_gen.inc."""
 # definition becomes UNSUPPORTED / different (broken theorem) and both harnesses build every padded operand by placement-new
 # into buffers pre-filled with different byte patterns through every constructor form to expose it with concrete operands.
 SH = {'2': ('vec2', 'xy'), '3': ('vec3', 'xyz'), '3a': ('vec3a', 'xyz'), '4': ('vec4', 'xyzw')}
-CT = {'f': 'F32', 'i': 'I32', 'd': 'F64', 'uc': 'U8', 'ul': 'U64'}
-CXXT = {'f': 'float', 'i': 'int', 'd': 'double', 'uc': 'uint8_t', 'ul': 'size_t'}
-ISFL = {'f': True, 'd': True, 'i': False, 'uc': False, 'ul': False}
+CT = {'f': 'F32', 'i': 'I32', 'd': 'F64', 'uc': 'U8', 'ul': 'U64', 's': 'I16'}
+CXXT = {'f': 'float', 'i': 'int', 'd': 'double', 'uc': 'uint8_t', 'ul': 'size_t', 's': 'int16_t'}
+ISFL = {'f': True, 'd': True, 'i': False, 'uc': False, 'ul': False, 's': False}
 ARGN = 'abcd'
 ORD, LIN, MUL2, MUL4 = 2 ** 31 - 1, 2 ** 28, 2 ** 14, 200       # operand magnitude classes for signed int (no overflow)
 
@@ -50,8 +50,9 @@ def mk(sh, terms):
 def common(t, u):
     """usual arithmetic conversions for the element types used here"""
     if t == u:
-        return 'i' if t == 'uc' else t
+        return 'i' if t in ('uc', 's') else t          # 8/16-bit operands are promoted to int
     s = {t, u}
+    if s == {'s', 'i'}: return 'i'
     if s == {'f', 'i'}: return 'f'
     if s == {'i', 'd'}: return 'd'
     if s == {'i', 'uc'}: return 'i'
@@ -112,43 +113,52 @@ BIN = [('add', 'Add', '+', LIN), ('sub', 'Sub', '-', LIN), ('mul', 'Mul', '*', M
 REM = [('rem', 'Rem', '%', ORD)]
 
 # ------------------------------------------------------------------------------------ unary operators and functors
-for t in ('f', 'i'):
+def promoted1(fmt, t, x):
+    """unary scalar operation on x : t carried out at the promoted type (int for the 8/16-bit types) and converted back"""
+    p = common(t, t)
+    return cv(p, t, fmt % (CT[p], cv(t, p, x)))
+
+
+for t in ('f', 'i', 'd', 's', 'uc'):
     for sh in ALLSH:
         for (nm, uo, cx) in (('sub', 'Neg', '-'), ('add', 'Pos', '+')):
             E('unary', 'op_%s__v%s%s' % (nm, sh, t), [(sh, t)], (sh, t),
-              mk(sh, ['(uop I %s %s %s)' % (uo, CT[t], c) for c in comps(sh, 'a')]), '%sa' % cx)
+              mk(sh, [promoted1('(uop I ' + uo + ' %s %s)', t, c) for c in comps(sh, 'a')]), '%sa' % cx, mag=min(ORD, 32767) if t == 's' else ORD)
         E('functor', 'abs__v%s%s' % (sh, t), [(sh, t)], (sh, t),
-          mk(sh, ['(lib I LAbs %s [%s])' % (CT[t], c) for c in comps(sh, 'a')]), 'abs(a)')
-for sh in ALLSH:
-    for (fn, body, apx) in (('rcp', '(rcp__f I %s)', False), ('rcp_safe', '(rcp_safe__f I %s)', False),
-                            ('sin', '(lib I LSin F32 [%s])', True), ('cos', '(lib I LCos F32 [%s])', True)):
-        E('functor', '%s__v%sf' % (fn, sh), [(sh, 'f')], (sh, 'f'), mk(sh, [body % c for c in comps(sh, 'a')]), '%s(a)' % fn, approx=apx)
+          mk(sh, [promoted1('(lib I LAbs %s [%s])', t, c) for c in comps(sh, 'a')]), 'abs(a)', mag=min(ORD, 32767) if t == 's' else ORD)
+for t in ('f', 'd'):
+    for sh in ALLSH:
+        for (fn, body, apx) in (('rcp', '(rcp__%s I %%s)' % t, False), ('rcp_safe', '(rcp_safe__%s I %%s)' % t, False),
+                                ('sin', '(lib I LSin %s [%%s])' % CT[t], True), ('cos', '(lib I LCos %s [%%s])' % CT[t], True)):
+            E('functor', '%s__v%s%s' % (fn, sh, t), [(sh, t)], (sh, t), mk(sh, [body % c for c in comps(sh, 'a')]), '%s(a)' % fn, approx=apx)
 
 # ------------------------------------------------------------------------------------ binary operators, one element type
-for t, vvs, ops in (('f', VV, BIN), ('i', VV, BIN + REM), ('d', VVSAME, BIN), ('uc', VVSAME, BIN + REM)):
+for t, vvs, ops in (('f', VV, BIN), ('i', VV, BIN + REM), ('d', VV, BIN), ('uc', VVSAME, BIN + REM), ('s', VVSAME, BIN + REM)):
     for (nm, bo, cx, mag) in ops:
         for (sa, sb, sr) in vvs:
-            if t == 'uc' and nm == 'rem' and sa == '3a':
+            if t in ('uc', 's') and nm == 'rem' and sa == '3a':
                 continue
             E('binary_vv', 'op_%s__v%s%s_v%s%s' % (nm, sa, t, sb, t), [(sa, t), (sb, t)], (sr, t),
               mk(sr, [sop(bo, t, t, x, y, back=t) for x, y in zip(comps(sa, 'a'), comps(sb, 'b'))]), 'a %s b' % cx,
-              mag=mag, nz=(1,) if nm in ('div', 'rem') else ())
+              mag=min(mag, 32767) if t == 's' else mag, nz=(1,) if nm in ('div', 'rem') else ())
         for (sa, sr) in VS:
-            if t == 'uc' and nm == 'rem' and sa == '3a':
+            if t in ('uc', 's') and nm == 'rem' and sa == '3a':
                 continue
             E('binary_vs', 'op_%s__v%s%s_%s' % (nm, sa, t, t), [(sa, t), (None, t)], (sr, t),
               mk(sr, [sop(bo, t, t, x, 'b', back=t) for x in comps(sa, 'a')]), 'a %s b' % cx,
-              mag=mag, nz=(1,) if nm in ('div', 'rem') else ())
+              mag=min(mag, 32767) if t == 's' else mag, nz=(1,) if nm in ('div', 'rem') else ())
             E('binary_sv', 'op_%s__%s_v%s%s' % (nm, t, sa, t), [(None, t), (sa, t)], (sr, t),
               mk(sr, [sop(bo, t, t, 'a', y, back=t) for y in comps(sa, 'b')]), 'a %s b' % cx,
-              mag=mag, nz=(1,) if nm in ('div', 'rem') else ())
+              mag=min(mag, 32767) if t == 's' else mag, nz=(1,) if nm in ('div', 'rem') else ())
 
 # ------------------------------------------------------------------------------------ binary operators, mixed element types
 # vec<T,N,A> op vec<U,N,A> -> vec<decltype(T() op U()),N,A>: both operands converted to the common type first
-for (t, u, ops, shapes) in (('f', 'i', BIN, ALLSH), ('i', 'd', BIN, ALLSH), ('i', 'uc', REM, ['2', '3', '4'])):
+for (t, u, ops, shapes) in (('f', 'i', BIN, ALLSH), ('i', 'd', BIN, ALLSH), ('i', 'uc', REM, ['2', '3', '4']), ('uc', 'i', BIN, ALLSH),
+                            ('s', 'i', BIN, ['2', '3', '4'])):
     r = common(t, u)
     for (nm, bo, cx, mag) in ops:
         for sh in shapes:
+            mag = min(mag, 32767) if 's' in (t, u) else mag
             nzv = (1,) if (nm in ('div', 'rem') and not ISFL[u]) else ()
             nzs = (0,) if (nm in ('div', 'rem') and not ISFL[u]) else ()
             E('mixed_vv', 'op_%s__v%s%s_v%s%s' % (nm, sh, t, sh, u), [(sh, t), (sh, u)], (sh, r),
@@ -164,7 +174,7 @@ AVV_F = [('2', '2'), ('3', '3'), ('3a', '3a'), ('3', '3a'), ('3a', '3'), ('4', '
 AVV_S = [('2', '2'), ('3', '3'), ('3a', '3a'), ('4', '4')]
 AVV_P = [('2', '2'), ('3', '3'), ('4', '4')]
 for (t, u, ops, vv, vs) in (('f', 'f', BIN, AVV_F, ALLSH), ('i', 'i', BIN + REM, AVV_S, ALLSH), ('f', 'i', BIN, AVV_S, ALLSH),
-                            ('i', 'd', BIN, AVV_P, ['2', '3', '4']), ('uc', 'uc', BIN, AVV_P, ['2', '3', '4'])):
+                            ('i', 'd', BIN, AVV_P, ['2', '3', '4']), ('uc', 'uc', BIN, AVV_P, ['2', '3', '4']), ('d', 'd', BIN, AVV_S, ALLSH)):
     for (nm, bo, cx, mag) in ops:
         f2i = (t == 'i' and u == 'd')
         for (sa, sb) in vv:
@@ -177,10 +187,11 @@ for (t, u, ops, vv, vs) in (('f', 'f', BIN, AVV_F, ALLSH), ('i', 'i', BIN + REM,
               mag=min(mag, 2 ** 20) if f2i else mag, fl='fin1' if f2i else 'any', nz=(1,) if (nm in ('div', 'rem') and (not ISFL[u] or f2i)) else ())
 
 # ------------------------------------------------------------------------------------ madd, comparisons, anyLessThan
-for sh in ('3', '3a'):
-    E('madd', 'madd__v%sf_v%sf_v%sf' % (sh, sh, sh), [(sh, 'f')] * 3, (sh, 'f'),
-      mk(sh, ['(madd__f_f_f I %s %s %s)' % (x, y, z) for x, y, z in zip(comps(sh, 'a'), comps(sh, 'b'), comps(sh, 'c'))]), 'madd(a, b, c)')
-for t in ('f', 'i'):
+for t in ('f', 'd'):
+    for sh in ('3', '3a'):
+        E('madd', 'madd__v%s%s_v%s%s_v%s%s' % (sh, t, sh, t, sh, t), [(sh, t)] * 3, (sh, t),
+          mk(sh, ['(madd__%s_%s_%s I %s %s %s)' % (t, t, t, x, y, z) for x, y, z in zip(comps(sh, 'a'), comps(sh, 'b'), comps(sh, 'c'))]), 'madd(a, b, c)')
+for t in ('f', 'i', 'd'):
     for (sa, sb, _) in VV:
         eqs = ['(cmp I Eq %s %s %s)' % (CT[t], x, y) for x, y in zip(comps(sa, 'a'), comps(sb, 'b'))]
         lts = ['(cmp I Lt %s %s %s)' % (CT[t], x, y) for x, y in zip(comps(sa, 'a'), comps(sb, 'b'))]
@@ -194,11 +205,11 @@ def dot_term(t, xs, ys):
     return chain('Add', CT[t], ['(bop I Mul %s %s %s)' % (CT[t], x, y) for x, y in zip(xs, ys)])
 
 
-for t in ('f', 'i'):
+for t in ('f', 'i', 'd'):
     for (sa, sb, _) in VV:
         E('dot', 'dot__v%s%s_v%s%s' % (sa, t, sb, t), [(sa, t), (sb, t)], (None, t), dot_term(t, comps(sa, 'a'), comps(sb, 'b')),
           'dot(a, b)', mag=MUL2)
-CROSS = [('f', '3', '3'), ('f', '3a', '3a'), ('f', '3', '3a'), ('f', '3a', '3'), ('i', '3', '3'), ('i', '3a', '3a')]
+CROSS = [('f', '3', '3'), ('f', '3a', '3a'), ('f', '3', '3a'), ('f', '3a', '3'), ('i', '3', '3'), ('i', '3a', '3a'), ('d', '3', '3'), ('d', '3a', '3a')]
 for (t, sa, sb) in CROSS:
     ax, ay, az = comps(sa, 'a')
     bx, by, bz = comps(sb, 'b')
@@ -206,21 +217,39 @@ for (t, sa, sb) in CROSS:
     s = lambda p, q: '(bop I Sub %s %s %s)' % (CT[t], p, q)
     E('cross', 'cross__v%s%s_v%s%s' % (sa, t, sb, t), [(sa, t), (sb, t)], ('3', t),
       mk('3', [s(m(ay, bz), m(az, by)), s(m(az, bx), m(ax, bz)), s(m(ax, by), m(ay, bx))]), 'cross(a, b)', mag=MUL2)
-for sh in ALLSH:
-    d = dot_term('f', comps(sh, 'a'), comps(sh, 'a'))
-    E('length', 'length__v%sf' % sh, [(sh, 'f')], (None, 'f'), '(lib I LSqrt F32 [%s])' % d, 'length(a)')
-    E('normalize', 'normalize__v%sf' % sh, [(sh, 'f')], (sh, 'f'),
-      mk(sh, ['(bop I Mul F32 %s (rsqrt__f I %s))' % (x, d) for x in comps(sh, 'a')]), 'normalize(a)')
-    E('normalize', 'safe_normalize__v%sf' % sh, [(sh, 'f')], (sh, 'f'),
-      mk(sh, ['(bop I Mul F32 %s (rsqrt__f I (lib I LMax F32 [(lib I (LOther 4) F32 []); %s])))' % (x, d) for x in comps(sh, 'a')]),
-      'safe_normalize(a)')
-    fx, fy, fz = comps('3', 'a')
-    E('interpolate', 'interpolate_uv__v3f_v%sf_v%sf_v%sf' % (sh, sh, sh), [('3', 'f'), (sh, 'f'), (sh, 'f'), (sh, 'f')], (sh, 'f'),
-      mk(sh, [chain('Add', 'F32', ['(bop I Mul F32 %s %s)' % (fx, p), '(bop I Mul F32 %s %s)' % (fy, q), '(bop I Mul F32 %s %s)' % (fz, r)])
-              for p, q, r in zip(comps(sh, 'b'), comps(sh, 'c'), comps(sh, 'd'))]), 'interpolate_uv(a, b, c, d)')
+for t in ('f', 'd'):
+    F = CT[t]
+    for sh in ALLSH:
+        d = dot_term(t, comps(sh, 'a'), comps(sh, 'a'))
+        E('length', 'length__v%s%s' % (sh, t), [(sh, t)], (None, t), '(lib I LSqrt %s [%s])' % (F, d), 'length(a)')
+        E('normalize', 'normalize__v%s%s' % (sh, t), [(sh, t)], (sh, t),
+          mk(sh, ['(bop I Mul %s %s (rsqrt__%s I %s))' % (F, x, t, d) for x in comps(sh, 'a')]), 'normalize(a)')
+        E('normalize', 'safe_normalize__v%s%s' % (sh, t), [(sh, t)], (sh, t),
+          mk(sh, ['(bop I Mul %s %s (rsqrt__%s I (lib I LMax %s [(lib I (LOther 4) %s []); %s])))' % (F, x, t, F, F, d) for x in comps(sh, 'a')]),
+          'safe_normalize(a)')
+        fx, fy, fz = comps('3', 'a')
+        E('interpolate', 'interpolate_uv__v3%s_v%s%s_v%s%s_v%s%s' % (t, sh, t, sh, t, sh, t), [('3', t), (sh, t), (sh, t), (sh, t)], (sh, t),
+          mk(sh, [chain('Add', F, ['(bop I Mul %s %s %s)' % (F, fx, p), '(bop I Mul %s %s %s)' % (F, fy, q), '(bop I Mul %s %s %s)' % (F, fz, r)])
+                  for p, q, r in zip(comps(sh, 'b'), comps(sh, 'c'), comps(sh, 'd'))]), 'interpolate_uv(a, b, c, d)')
+        # lerp (rkmath.h template) on vectors: (1.f - factor) * a + factor * b, the float factor converted to the element type
+        one_minus = '(bop I Sub F32 (flit I F32 1 1) a)'
+        E('interpolate', 'lerp__f_v%s%s_v%s%s' % (sh, t, sh, t), [(None, 'f'), (sh, t), (sh, t)], (sh, t),
+          mk(sh, ['(bop I Add %s (bop I Mul %s %s %s) (bop I Mul %s %s %s))' % (F, F, cv('f', t, one_minus), p, F, cv('f', t, 'a'), q)
+                  for p, q in zip(comps(sh, 'b'), comps(sh, 'c'))]), 'lerp(a, b, c)')
+# clamp (rkmath.h template) on vectors: max(min(x, upper), lower) per component
+for t in ('f', 'i', 'd'):
+    for sh in ALLSH:
+        E('minmax', 'clamp__v%s%s_v%s%s_v%s%s' % (sh, t, sh, t, sh, t), [(sh, t)] * 3, (sh, t),
+          mk(sh, ['(lib I LMax %s [(lib I LMin %s [%s; %s]); %s])' % (CT[t], CT[t], x, hi, lo)
+                  for x, lo, hi in zip(comps(sh, 'a'), comps(sh, 'b'), comps(sh, 'c'))]), 'clamp(a, b, c)')
 
 # ------------------------------------------------------------------------------------ min max divRoundUp, reductions
-for t in ('f', 'i'):
+for t in ('s', 'uc'):
+    for sh in ALLSH:
+        for (fn, lf) in (('min', 'LMin'), ('max', 'LMax')):
+            E('minmax', '%s__v%s%s_v%s%s' % (fn, sh, t, sh, t), [(sh, t), (sh, t)], (sh, t),
+              mk(sh, ['(lib I %s %s [%s; %s])' % (lf, CT[t], x, y) for x, y in zip(comps(sh, 'a'), comps(sh, 'b'))]), '%s(a, b)' % fn, mag=32767)
+for t in ('f', 'i', 'd'):
     for sh in ALLSH:
         for (fn, lf) in (('min', 'LMin'), ('max', 'LMax')):
             E('minmax', '%s__v%s%s_v%s%s' % (fn, sh, t, sh, t), [(sh, t), (sh, t)], (sh, t),
@@ -236,12 +265,14 @@ for t in ('f', 'i'):
             m2 = lambda p, q: '(lib I %s %s [%s; %s])' % (lf, CT[t], p, q)
             r = m2(c[0], c[1]) if len(c) == 2 else m2(m2(c[0], c[1]), c[2]) if len(c) == 3 else m2(m2(c[0], c[1]), m2(c[2], c[3]))
             E('reduce', 'reduce_%s__v%s%s' % (fn, sh, t), [(sh, t)], (None, t), r, 'reduce_%s(a)' % fn)
-for sh in ALLSH:
-    E('minmax', 'divRoundUp__v%si_v%si' % (sh, sh), [(sh, 'i'), (sh, 'i')], (sh, 'i'),
-      mk(sh, ['(divRoundUp__i_i I %s %s)' % (x, y) for x, y in zip(comps(sh, 'a'), comps(sh, 'b'))]), 'divRoundUp(a, b)', mag=LIN, nz=(1,))
+for t in ('i', 's', 'uc'):
+    for sh in ALLSH:
+        E('minmax', 'divRoundUp__v%s%s_v%s%s' % (sh, t, sh, t), [(sh, t), (sh, t)], (sh, t),
+          mk(sh, ['(divRoundUp__%s_%s I %s %s)' % (t, t, x, y) for x, y in zip(comps(sh, 'a'), comps(sh, 'b'))]), 'divRoundUp(a, b)',
+          mag=min(LIN, 32767) if t == 's' else LIN, nz=(1,))
 
 # ------------------------------------------------------------------------------------ std::less: lexicographic
-for t in ('f', 'i'):
+for t in ('f', 'i', 'd'):
     for sh in ALLSH:
         xs, ys = comps(sh, 'a'), comps(sh, 'b')
         r = '(cmp I Lt %s %s %s)' % (CT[t], xs[-1], ys[-1])
@@ -256,6 +287,17 @@ E('scalar', 'rsqrt__f', [(None, 'f')], (None, 'f'), '(bop I Div F32 (flit I F32 
 E('scalar', 'madd__f_f_f', [(None, 'f')] * 3, (None, 'f'), '(bop I Add F32 (bop I Mul F32 a b) c)', 'madd(a, b, c)')
 E('scalar', 'divRoundUp__i_i', [(None, 'i')] * 2, (None, 'i'), '(bop I Div I32 (bop I Sub I32 (bop I Add I32 a b) (ilit I I32 1)) b)',
   'divRoundUp(a, b)', mag=LIN, nz=(1,))
+E('scalar', 'rcp__d', [(None, 'd')], (None, 'd'), '(bop I Div F64 (flit I F64 1 1) a)', 'rcp(a)')
+E('scalar', 'rsqrt__d', [(None, 'd')], (None, 'd'), '(bop I Div F64 (flit I F64 1 1) (lib I LSqrt F64 [a]))', 'rsqrt(a)')
+E('scalar', 'madd__d_d_d', [(None, 'd')] * 3, (None, 'd'), '(bop I Add F64 (bop I Mul F64 a b) c)', 'madd(a, b, c)')
+# divRoundUp on 8/16-bit types: (a + b - 1) / b is computed in int and narrowed ONCE, at the return
+for _t in ('s', 'uc'):
+    E('scalar', 'divRoundUp__%s_%s' % (_t, _t), [(None, _t)] * 2, (None, _t),
+      cv('i', _t, '(bop I Div I32 (bop I Sub I32 (bop I Add I32 %s %s) (ilit I I32 1)) %s)' % (cv(_t, 'i', 'a'), cv(_t, 'i', 'b'), cv(_t, 'i', 'b'))),
+      'divRoundUp(a, b)', mag=32767, nz=(1,))
+E('scalar', 'rcp_safe__d', [(None, 'd')], (None, 'd'),
+  '(rcp__d I (if (cmp I Lt F64 (lib I LAbs F64 [a]) (lib I (LOther 2) F64 [])) then (if (cmp I Ge F64 a (cast I F32 F64 (flit I F32 0 1))) '
+  'then (lib I (LOther 2) F64 []) else (uop I Neg F64 (lib I (LOther 2) F64 []))) else a))', 'rcp_safe(a)')
 E('scalar', 'rcp_safe__f', [(None, 'f')], (None, 'f'),
   '(rcp__f I (if (cmp I Lt F32 (lib I LAbs F32 [a]) (lib I (LOther 2) F32 [])) then (if (cmp I Ge F32 a (flit I F32 0 1)) '
   'then (lib I (LOther 2) F32 []) else (uop I Neg F32 (lib I (LOther 2) F32 []))) else a))', 'rcp_safe(a)')
